@@ -193,6 +193,13 @@ def main(argv=None):
         from checks import filestep
         fs = filestep.run(report, args.tier, args.seed, "C02")
         report.coverage["filestep"] = fs
+        # Layer G: a step whose amended input turns up while it runs must not be parked for good
+        # (spec/Defer.tla): whether a build succeeds must not depend on that interleaving
+        from checks import defer
+        df = defer.run(report, args.tier, args.seed, "C02")
+        report.coverage["defer"] = df
+        report.coverage["states"] = report.coverage.get("states", 0) + df.get("states", 0)
+        report.coverage["traces_validated_against_impl"] = report.coverage.get("traces_validated_against_impl", 0) + df.get("sequences", 0)
         report.coverage["states"] = report.coverage.get("states", 0) + fs.get("states", 0)
         report.coverage["traces_validated_against_impl"] = report.coverage.get("traces_validated_against_impl", 0) + fs.get("sequences", 0)
     return report.finish()
